@@ -112,6 +112,16 @@ func (o ChainOracle) AfterStep(m *VM, rec *Rec) {
 	if mutated {
 		m.Probe("chain_mutated_token_reached_verification")
 	}
+	// third sentence of C01 for verifiers that hold a key source (map of ids + default) instead of one
+	// key: a token produced only through the library, presented to a source that selects its issuer's
+	// key for the root key id ITS BUILDER WAS GIVEN (not the one found on the wire), is accepted
+	if ik := m.Key(t.RootKey); !accepted && !t.Hostile && t.Abs != nil && op.KS.UseMap && op.KS.Raw == "" && ik != nil && !ik.Rotated {
+		if want := m.RefKey(op.KS, t.Abs.RootID); want != nil && bytes.Equal(want, ik.Pub) {
+			m.Violate(o.Prop, "library-built-token-rejected", "a token produced only through the library is rejected by a key source holding its issuer's key: "+azErr,
+				fmt.Sprintf("op %d: token in slot %d (created by op %d, %d blocks, root key id given to the builder: %s) rejected: %s", rec.I, op.A, t.Created, len(t.Abs.Blocks), idStr(t.Abs.RootID), errText))
+			return
+		}
+	}
 	if key == nil || len(key) != 32 {
 		return // key selection is C16's subject
 	}
@@ -174,6 +184,13 @@ func (o ChainOracle) AfterStep(m *VM, rec *Rec) {
 }
 
 func (o ChainOracle) AtEnd(m *VM) {}
+
+func idStr(id *uint32) string {
+	if id == nil {
+		return "none"
+	}
+	return fmt.Sprint(*id)
+}
 
 func firstWord(s string) string {
 	if i := strings.Index(s, ":"); i > 0 && i+1 < len(s) {
